@@ -1,6 +1,6 @@
 (* C05 — CL signatures: valid ones verify, invalid ones never do. *)
 From Coq Require Import ZArith List.
-From Gabi Require Import ModArith GoSem ParamsDef Keys Core CL.
+From Gabi Require Import ModArith GoSem ParamsDef Keys Core CL CLCollide.
 Import ListNotations.
 Open Scope Z_scope.
 
@@ -39,3 +39,14 @@ Theorem cl_verify_rejects_bad_e :
   (e < e_start (pk_params pk) \/ e_end (pk_params pk) < e \/ is_prime e = false) ->
   cl_verify pk is_prime sg ms = Ok false.
 Proof. exact cl_verify_rejects_bad_e_lem. Qed.
+
+(* A signature never verifies against a different block, algebraic core: if one signature verifies over two message
+   blocks under the same key, the two blocks have the same representation prod R_i^(m_i) modulo N. Two different
+   blocks with one representation are a non-trivial relation among the bases, which only the holder of the private
+   key can compute (cited). *)
+Theorem cl_two_blocks_collide :
+  forall pk is_prime sg ms ms',
+  1 < pk_N pk -> Z.gcd (pk_Z pk) (pk_N pk) = 1 ->
+  cl_verify pk is_prime sg ms = Ok true -> cl_verify pk is_prime sg ms' = Ok true ->
+  exists r r', represent_to_pk pk ms = Ok r /\ represent_to_pk pk ms' = Ok r' /\ r mod pk_N pk = r' mod pk_N pk.
+Proof. exact cl_two_blocks_collide_lem. Qed.
